@@ -278,11 +278,9 @@ impl<'a> TypeFn for SpecSweep<'a> {
 /// the committed known findings (see /verif/KNOWN_FINDINGS): argument ranges in which the
 /// documented closed form / recurrence loses accuracy by cancellation
 pub fn known_range(fname: &str, ax: f64, order: usize, f32mode: bool) -> bool {
-    let eps = if f32mode { f32::EPSILON as f64 } else { f64::EPSILON };
+    let _ = (ax, order, f32mode);
     match fname {
-        "sph_j0" => order >= 1 && ax >= eps && ax < 1.0,
-        "sph_j1" | "sph_j2" => ax >= eps && ax < 1.0,
-        // (bessel_j2: repaired, see KNOWN_FINDINGS; no open finding)
+        // (sph_j0/1/2: repaired -- series below 0.3 --, bessel_j2: repaired, see KNOWN_FINDINGS; no open finding)
         _ => false,
     }
 }
